@@ -3,19 +3,6 @@ From Coq Require Import Reals ZArith Lra Lia Arith.
 From OAS Require Import Scalar Rops Sums Transfer Constants.
 Open Scope R_scope.
 
-(* node sums re-organised as panel sums *)
-Lemma node_to_panel n (A B : nat -> R) :
-  rsum (S n) (fun j => iff0 (j <? n) (A j) + iff0 (0 <? j) (B (j - 1)%nat))
-  = rsum n (fun j => A j + B j).
-Proof.
-  rewrite rsum_plus, (rsum_plus n).
-  f_equal.
-  - rewrite rsum_S. rewrite Nat.ltb_irrefl. unfold iff0 at 2. rewrite Rplus_0_r.
-    apply rsum_ext; intros i Hi. apply Nat.ltb_lt in Hi. rewrite Hi. reflexivity.
-  - rewrite rsum_shift. cbn [Nat.ltb Nat.leb iff0]. rewrite Rplus_0_l.
-    apply rsum_ext; intros i Hi. cbn [Nat.ltb Nat.leb iff0 Nat.sub]. rewrite Nat.sub_0_r. reflexivity.
-Qed.
-
 Section LT.
   Variables (npx npy : nat) (w1 w2 : R).
   Variable mesh : nat -> nat -> nat -> R.
